@@ -462,7 +462,7 @@ pub fn sk_case() -> impl Strategy<Value = SkCase> {
         proptest::collection::vec((any::<u16>(), any::<u64>(), 0u8..4), 2..=6),
         proptest::collection::vec(fraw_point(), 2..=6),
         any::<u64>(),
-        0u8..4,
+        0u8..6,
         any::<u64>(),
         0u8..3,
     )
@@ -506,11 +506,26 @@ pub fn check_sk(c: &SkCase, ctx: &mut CaseCtx) -> Result<(), Failure> {
             evals[pb][za] -= d;
             all_true = false;
         }
-        _ => {
+        3 => {
             // cancelling across points for one polynomial
             evals[pa][za] += d;
             evals[pa][zb] -= d;
             all_true = false;
+        }
+        4 => {
+            // a surplus row of claims (for a polynomial nobody committed to) with non-zero values
+            let mut g = rng(sel ^ 0x5c);
+            evals.push(points.iter().map(|_| Fr::rand(&mut g) + Fr::from(1u64)).collect());
+            all_true = false;
+            ctx.label("surplus_claim_row");
+        }
+        _ => {
+            // a surplus row that repeats a true row with one value changed
+            let mut row = evals[pa].clone();
+            row[za] += d;
+            evals.push(row);
+            all_true = false;
+            ctx.label("surplus_claim_row");
         }
     }
     ctx.label(&format!("variant:{}", c.variant));
@@ -599,7 +614,7 @@ pub fn spec() -> PropertySpec {
     units.push(PropUnit::new("C05:skzg:multi-vs-truth", 300, 2400, 2, |_| sk_case().boxed(), check_sk));
     PropertySpec {
         id: "C05",
-        rule: "Query sets with >=2 point labels (few distinct point values, so labels share them) over 2-5 polynomials; variants: all true, one false claim, plain cancelling pair (+d,-d) inside one label, across two labels, challenge-weighted cancellation across two labels that carry one point value (opening challenges replayed by the harness; Marlin/Sonic/PST13 schedules), proofs swapped / duplicated / one missing / one surplus, a random group element added to the accumulated proof element of one label and subtracted from another's (KZG witness, PST13 witness, IPA final key). Oracles: (a) the batch decision is the same under three verifier RNG seeds; (b) it equals the AND of the scheme's own single-point checks run label by label on one threaded sponge with the same proof list; (c) it equals the ground truth (accept iff every claim is true and the proof list is the honest one; swapped or duplicated proofs count as changed only if their bytes differ). KZG10::batch_check is compared with KZG10::check on claims whose points come from a pool of <=2 values (adjacent same-point claims included); streaming verify_multi_points is compared with the truth of every (polynomial, point) claim under a random batching challenge. Non-trivial: a false claim outside the first label, a cancelling pair, or a proof-list change.",
+        rule: "Query sets with >=2 point labels (few distinct point values, so labels share them) over 2-5 polynomials; variants: all true, one false claim, plain cancelling pair (+d,-d) inside one label, across two labels, challenge-weighted cancellation across two labels that carry one point value (opening challenges replayed by the harness; Marlin/Sonic/PST13 schedules), proofs swapped / duplicated / one missing / one surplus, a random group element added to the accumulated proof element of one label and subtracted from another's (KZG witness, PST13 witness, IPA final key). Oracles: (a) the batch decision is the same under three verifier RNG seeds; (b) it equals the AND of the scheme's own single-point checks run label by label on one threaded sponge with the same proof list; (c) it equals the ground truth (accept iff every claim is true and the proof list is the honest one; swapped or duplicated proofs count as changed only if their bytes differ). KZG10::batch_check is compared with KZG10::check on claims whose points come from a pool of <=2 values (adjacent same-point claims included); streaming verify_multi_points is compared with the truth of every (polynomial, point) claim under a random batching challenge, including surplus rows of claims beyond the committed polynomials. Non-trivial: a false claim outside the first label, a cancelling pair, or a proof-list change.",
         assumptions: vec![
             "the batching challenge / verifier RNG are honest randomness (degenerate challenges such as eta in {0,1} are outside the property)",
             "challenge-weighted cancellation *inside* one label is not generated: the library leaves absorbing the claimed values to the caller, so such claims verify by design",
